@@ -20,11 +20,22 @@ Verdict(e) ==
     \o (CASE e.mut \in {"sig_twin", "reply_other"} -> <<>>
           [] e.mut = "net_field" -> Clause("C34:foreign_network_id_rejected", ~e.accepted)
           [] e.mut = "none"      -> Clause("C34:own_signer_record_accepted", e.accepted = Accept(RecOf(e), CheckNet(e)))
+          \* same signed bytes with the field boundary moved / a record the key made for an overlay that is not its own:
+          \* the signature is genuine, the claimed overlay is not the signer's
+          [] e.mut \in {"shift", "claim"} ->
+               Clause("C34:accepted_only_if_signed_by_the_key_of_the_claimed_overlay", e.accepted => Accept(RecOf(e), CheckNet(e)))
           [] OTHER               -> Clause("C34:changed_record_rejected", e.accepted = Accept(RecOf(e), CheckNet(e))))
+
+\* binding: the record the driver presented has the field lengths of the model's record
+LengthsAsModelled(e) ==
+  LET r == RecOf(e)  UC == [u \in UnderlayIds |-> e.ucuts[u]]
+  IN e.ulen = FieldBytes(r.u, UC) /\ e.olen = FieldBytes(r.o, UC)
 
 \* conformance notes (never alarm)
 Note(l_, e) ==
-  IF IsRecordEvent(e) /\ e.mut = "sig_twin" /\ e.accepted
+  IF IsRecordEvent(e) /\ e.mut \notin {"net_field", "reply_other"} /\ ~LengthsAsModelled(e)
+  THEN <<[line |-> l_, scn |-> e.scn, note |-> "record_field_lengths_differ_from_model", op |-> e.op]>>
+  ELSE IF IsRecordEvent(e) /\ e.mut = "sig_twin" /\ e.accepted
   THEN <<[line |-> l_, scn |-> e.scn, note |-> "malleated_signature_twin_accepted", op |-> e.op]>>
   ELSE IF IsRecordEvent(e) /\ e.mut = "reply_other" /\ e.accepted
   THEN <<[line |-> l_, scn |-> e.scn, note |-> "underlay_reply_for_another_overlay_accepted", op |-> e.op]>>
